@@ -301,6 +301,7 @@ void gvt_msg_drain(void)
 		}
 		if(atomic_load_explicit(&idle_thr, memory_order_relaxed) == global_config.n_threads)
 			break;
+		RSV_YIELD(RSV_SITE_DRAIN);
 		spin_pause();
 	}
 	drain_flush = true;
